@@ -114,6 +114,11 @@ def _run(cfg):
                         e["wantp"] = o["p"]
                     i += 1 + cnt
                 else:
+                    if op["p"] > len(tree.nodes):
+                        # the implementation has produced fewer cells than the behaviour: it has already left the
+                        # behaviour (the trace spec rejects the deviating event); nothing more can be replayed
+                        events.append({"k": "diverged", "p": op["p"]})
+                        break
                     _feed(script, kind, K, D, op.get("dim", 1), op["cuts"], amap)
                     node = tree.nodes[op["p"] - 1]
                     n0 = len(events)
@@ -122,7 +127,7 @@ def _run(cfg):
                         e["want"] = [op.get("dim", 1), list(op["cuts"])]
                         e["wantp"] = op["p"]
                     i += 1
-        if script.underrun or script.q:
+        if (script.underrun or script.q) and not any(e.get("k") == "diverged" for e in events):
             events.append({"k": "script", "underrun": script.underrun, "left": len(script.q)})
     else:  # random session
         rnd = random.Random(cfg["seed"])
@@ -152,6 +157,14 @@ def _run(cfg):
         if ctx:
             ctx.__enter__()
         try:
+            if cfg.get("chain"):
+                # one deep chain: always split the first / the last child of the previous split (labels grow to
+                # arity^depth, cells shrink to the resolution of the floats)
+                node = part.get_root()
+                for _ in range(cfg["chain_depth"]):
+                    part.make_children(node, newlayer=(node.get_depth() >= part.get_depth()))
+                    node = node.get_children()[0 if cfg["chain"] == "first" else -1]
+                nops = 0
             for _ in range(nops):
                 if len(tree.nodes) >= maxcells:
                     break
